@@ -169,6 +169,12 @@ pub struct World {
     peer_open: bool,
     app_calls: usize,
     sent_bytes: u64,
+    pub cfg: ServerSessionConfig,
+    pub order_seed: u64,
+    pub off_ms: u64,
+    /// C03: hostile peer -- (enabled link fault kinds, 1/rate per packet, faults fired)
+    pub hostile: Option<(Vec<usize>, u64, usize)>,
+    history: Vec<u8>,
 }
 
 fn viol(ctx: &Ctx, class: &str, msg: String) -> Violation {
@@ -184,6 +190,9 @@ impl World {
         self.enc.encode_message(&mut out, csid, m, fmt);
         self.sent_bytes += out.len() as u64;
         self.link.push(&out);
+        if self.history.len() < 4096 {
+            self.history.extend_from_slice(&out);
+        }
         self.hdr_tap.chunks.clear();
         let _ = self.hdr_tap.feed(&out);
         for c in self.hdr_tap.chunks.iter() {
@@ -229,7 +238,44 @@ impl World {
     }
 
     /// The scripted client peer emits its next message.
+    /// C03: a hostile message in a well-formed chunk stream, optionally hit by a link fault.
+    fn hostile_step(&mut self, ctx: &mut Ctx) {
+        let pool: Vec<u32> = vec![0, 1, 2, self.pick_sid(ctx)];
+        let m = crate::worlds::hostile::draw_message(ctx, &pool);
+        let csid = 2 + ctx.ch.draw("op.arg.csid", 7) as u32;
+        let legal = self.enc.legal_formats(csid, &m);
+        let opts: Vec<u8> = (0..4u8).rev().filter(|f| legal[*f as usize]).collect();
+        let f = opts[ctx.ch.draw("op.arg.fmt", opts.len() as u64) as usize];
+        ctx.tr(|| format!("  hostile peer: [{}] csid {} fmt {} body {:02x?}", m.brief(), csid, f, &m.payload[..m.payload.len().min(24)]));
+        let mut out = Vec::new();
+        self.enc.encode_message(&mut out, csid, &m, f);
+        if m.type_id == 1 && m.payload.len() >= 4 {
+            let v = u32::from_be_bytes([m.payload[0], m.payload[1], m.payload[2], m.payload[3]]) & 0x7FFF_FFFF;
+            if v >= 1 {
+                self.enc.chunk_size = v;
+            }
+        }
+        if let Some((kinds, rate, fired)) = self.hostile.clone() {
+            if !kinds.is_empty() && fired < 3 && ctx.ch.chance("fault.kind", 1, rate) {
+                let kind = kinds[ctx.ch.draw("fault.arg.kind", kinds.len() as u64) as usize];
+                let hist = self.history.clone();
+                crate::link::mutate(ctx, kind, &mut out, &hist);
+                self.hostile = Some((kinds, rate, fired + 1));
+            }
+        }
+        ctx.ev_bytes(140, &out);
+        self.link.push(&out);
+        if self.history.len() < 4096 {
+            self.history.extend_from_slice(&out);
+        }
+        self.peer_msgs += 1;
+    }
+
     fn peer_step(&mut self, ctx: &mut Ctx) {
+        if self.hostile.is_some() && ctx.ch.chance("op.hostile", 1, 3) {
+            self.hostile_step(ctx);
+            return;
+        }
         self.peer_ts = self.peer_ts.wrapping_add(ctx.ch.draw("ts.step", 40) as u32);
         let ts = self.peer_ts;
         let connected = self.model.app.is_some();
@@ -629,6 +675,7 @@ pub fn build(ctx: &mut Ctx, mode: EMode) -> Result<World, Violation> {
         0
     };
     let time_scale = ctx.ch.weighted("cfg.timescale", &[3, 2, 2, 1, 1]) as u64;
+    let cfg_copy = cfg.clone();
     let (mut srv, _wire0) = match SrvNode::new(ctx, cfg, 2, NodeClock::new(0)) {
         Ok(x) => x,
         Err((_, e)) => return Err(Violation::new(format!("{}/session/constructor-error", ctx.prop), format!("ServerSession::new returned Err({})", e))),
@@ -655,6 +702,11 @@ pub fn build(ctx: &mut Ctx, mode: EMode) -> Result<World, Violation> {
         peer_open: true,
         app_calls: 0,
         sent_bytes: 0,
+        cfg: cfg_copy,
+        order_seed,
+        off_ms,
+        hostile: None,
+        history: Vec::new(),
     })
 }
 
@@ -741,6 +793,226 @@ pub fn run(ctx: &mut Ctx, mode: EMode) -> RunResult {
                 ctx.probe("d.uptime_past_2^32ms");
             }
         }
+    }
+    Ok(())
+}
+
+// ---------------------------------------------------------------------------------------------
+// C15, server session part
+
+pub enum SetupStep {
+    Bytes(Vec<u8>),
+    Accept(u32),
+}
+
+fn results_to_strings(out: &CallOut<ServerSessionEvent>) -> Vec<String> {
+    let mut res = Vec::new();
+    let n_pk = out.order.iter().filter(|o| **o == 0).count();
+    let tap_ok = out.decoded.len() == n_pk;
+    let (mut pi, mut ei) = (0, 0);
+    for o in out.order.iter() {
+        if *o == 0 {
+            if tap_ok {
+                let m = &out.decoded[pi];
+                if m.type_id != 3 {
+                    res.push(crate::worlds::c15::msg_string(m));
+                }
+            } else {
+                res.push("undecodable packet".to_string());
+            }
+            pi += 1;
+        } else {
+            res.push(match &out.events[ei] {
+                ServerSessionEvent::UnhandleableAmf0Command { command_name, transaction_id, command_object, additional_values } => format!(
+                    "UnhandleableAmf0Command {:?} tx={:016x} obj={} args=[{}]",
+                    command_name,
+                    transaction_id.to_bits(),
+                    crate::worlds::c15::canon_amf(command_object),
+                    crate::worlds::c15::canon_amf_list(additional_values)
+                ),
+                other => format!("{:?}", other),
+            });
+            ei += 1;
+        }
+    }
+    res
+}
+
+impl World {
+    fn setup_send(&mut self, ctx: &mut Ctx, steps: &mut Vec<SetupStep>, m: RefMsg, csid: u32) -> RunResult {
+        let f = self.enc.best_format(csid, &m);
+        let mut out = Vec::new();
+        self.enc.encode_message(&mut out, csid, &m, f);
+        steps.push(SetupStep::Bytes(out.clone()));
+        self.link.push(&out);
+        self.deliver(ctx, false)
+    }
+
+    fn setup_accept(&mut self, ctx: &mut Ctx, steps: &mut Vec<SetupStep>, id: u32) -> RunResult {
+        steps.push(SetupStep::Accept(id));
+        let r = self.srv.app_results(ctx, &|_| Want::OnStreams { type_ids: &[], msids: vec![] }, |s| s.accept_request(id));
+        if let Ok(out) = &r {
+            if let Some(outs) = tracked(out) {
+                if let Ok(m2) = self.model.accept(id, true, &outs) {
+                    self.model = m2;
+                }
+            }
+        }
+        Ok(())
+    }
+}
+
+pub fn run_c15(ctx: &mut Ctx) -> RunResult {
+    use crate::worlds::c15::{compare_sessions, four_partitions, CallRec};
+    ctx.world("E-differential");
+    let mut g = build(ctx, EMode::C18)?; // generator instance: the model only steers the script
+    g.link.mode = crate::link::SegMode::All;
+    g.off_ms = ctx.ch.draw("clock.offv", 1u64 << 33);
+    // fixed whole-packet set-up phase bringing the session into a PRNG-chosen state
+    let depth = ctx.ch.draw("cfg.setup", 8);
+    let play = ctx.ch.chance("cfg.play", 1, 2);
+    let mut steps: Vec<SetupStep> = Vec::new();
+    if depth >= 1 {
+        g.setup_send(ctx, &mut steps, msg::command(0, 0, "connect", 1.0, AV::Obj(vec![("app".to_string(), AV::s("live"))]), vec![]), 3)?;
+    }
+    if depth >= 2 {
+        g.setup_accept(ctx, &mut steps, 0)?;
+    }
+    if depth >= 3 {
+        g.setup_send(ctx, &mut steps, msg::command(0, 0, "createStream", 2.0, AV::Null, vec![]), 3)?;
+    }
+    if depth >= 4 {
+        let m = if play { msg::command(1, 0, "play", 0.0, AV::Null, vec![AV::s("key")]) } else { msg::command(1, 0, "publish", 0.0, AV::Null, vec![AV::s("key"), AV::s("live")]) };
+        g.setup_send(ctx, &mut steps, m, 8)?;
+    }
+    if depth >= 5 {
+        g.setup_accept(ctx, &mut steps, 1)?;
+    }
+    if depth >= 6 {
+        let w = *ctx.ch.pick("op.arg.win", &[1u32, 7, 64, 1000]);
+        g.setup_send(ctx, &mut steps, msg::window_ack(0, w), 2)?;
+    }
+    if g.srv.c.closed {
+        return Ok(());
+    }
+    // the stream under test: peer messages that are not delivered to the generator instance
+    let n = 3 + ctx.ch.draw("op.count", 10) as usize;
+    for _ in 0..n {
+        g.peer_step(ctx);
+        if !g.peer_open {
+            break;
+        }
+    }
+    let mut flat = g.link.next_segment(ctx);
+    let n_mut = ctx.ch.weighted("fault.kind", &[3, 2, 1, 1]);
+    if n_mut > 0 && !flat.is_empty() {
+        for _ in 0..n_mut {
+            let kind = ctx.ch.draw("fault.arg.kind", crate::link::HOSTILE_KINDS.len() as u64) as usize;
+            let hist = flat.clone();
+            crate::link::mutate(ctx, kind, &mut flat, &hist);
+        }
+        ctx.probe("c15.mutated_session_stream");
+    }
+    if flat.len() >= 20 {
+        ctx.nontrivial = true;
+    }
+    ctx.probe("c15.server_session_stream");
+    ctx.ev_bytes(130, &flat);
+    let pieces = vec![flat.clone()];
+    let parts = four_partitions(ctx, &pieces);
+    let mut results: Vec<(&'static str, Vec<CallRec>)> = Vec::new();
+    for (name, lens) in parts.iter() {
+        crate::worlds::install_amf_order(g.order_seed);
+        let (mut node, _) = match SrvNode::new(ctx, g.cfg.clone(), 2, NodeClock::new(0)) {
+            Ok(x) => x,
+            Err(_) => return Ok(()),
+        };
+        node.c.clock = NodeClock::new(g.off_ms); // frozen: simulated time does not advance here
+        let mut dead = false;
+        for st in steps.iter() {
+            match st {
+                SetupStep::Bytes(b) => {
+                    if node.handle_input(ctx, b)?.is_err() {
+                        dead = true;
+                        break;
+                    }
+                }
+                SetupStep::Accept(id) => {
+                    let _ = node.app_results(ctx, &|_| Want::OnStreams { type_ids: &[], msids: vec![] }, |s| s.accept_request(*id));
+                }
+            }
+        }
+        if dead {
+            return Ok(());
+        }
+        let mut calls = Vec::new();
+        let mut pos = 0usize;
+        for &n in lens.iter() {
+            let n = n.min(flat.len() - pos);
+            let seg = &flat[pos..pos + n];
+            let r = node.handle_input(ctx, seg)?;
+            ctx.steps += 1;
+            match r {
+                Ok(out) => calls.push(CallRec { start: pos, end: pos + n, outs: results_to_strings(&out), err: None }),
+                Err(e) => {
+                    calls.push(CallRec { start: pos, end: pos + n, outs: Vec::new(), err: Some(format!("{:?}", std::mem::discriminant(&e)) + &e.to_string()) });
+                    break;
+                }
+            }
+            pos += n;
+            if pos >= flat.len() {
+                break;
+            }
+        }
+        ctx.ev(131, calls.len() as u64, calls.iter().map(|c| c.outs.len() as u64).sum());
+        results.push((name, calls));
+    }
+    compare_sessions(ctx, "server-differential", &results)
+}
+
+/// C03: the valid workload of this world with a hostile peer mixed in; safety oracle only.
+pub fn run_hostile(ctx: &mut Ctx) -> RunResult {
+    ctx.world("E-hostile");
+    ctx.step_cap = 30_000;
+    let mut w = build(ctx, EMode::C18)?;
+    w.model_alive = true;
+    let kinds: Vec<usize> = (0..crate::link::HOSTILE_KINDS.len()).filter(|_| ctx.ch.chance("cfg.fault", 1, 2)).collect();
+    let rate = *ctx.ch.pick("cfg.faultrate", &[3u64, 6, 2]);
+    w.hostile = Some((kinds, rate, 0));
+    let max_msgs = 5 + ctx.ch.draw("op.count", 30) as usize;
+    loop {
+        if w.srv.c.closed || !ctx.step() {
+            break;
+        }
+        let mut enabled: Vec<u8> = Vec::new();
+        if w.peer_open && w.peer_msgs < max_msgs {
+            enabled.push(0);
+        }
+        if w.link.available() > 0 {
+            enabled.push(1);
+            enabled.push(1);
+        }
+        if w.app_calls < 20 && ctx.ch.chance("sched.app", 1, 3) {
+            enabled.push(2);
+        }
+        if enabled.is_empty() {
+            break;
+        }
+        let pick = enabled[ctx.ch.draw("sched.pick", enabled.len() as u64) as usize];
+        match pick {
+            0 => {
+                ctx.sched(0, 0, 0);
+                w.peer_step(ctx);
+            }
+            1 => w.deliver(ctx, false)?,
+            _ => w.app_step(ctx)?,
+        }
+    }
+    ctx.nontrivial = w.peer_msgs >= 2;
+    if w.srv.c.closed {
+        ctx.probe("c03.e.session_closed_by_error");
+    } else {
+        ctx.probe("c03.e.session_survived");
     }
     Ok(())
 }
